@@ -908,6 +908,10 @@ inductive Step where
   /-- `rename_symbol`: writes `result` computed from the override buffer (or the disk) under the
   lock, without any expected version -/
   | symRename (buffer : Option Content) (result : Content)
+  /-- a successful `apply_source` through ANOTHER document key that names the same file (the key is
+  the normalised request string, so an in-root directory link gives one file several keys): the
+  disk changes, this key's tracked document does not -/
+  | aliasWrite (new : Content)
 
 /-- the steps covered by the optimistic-concurrency protocol -/
 def Step.versioned : Step → Bool
@@ -968,6 +972,10 @@ def next (s : PState) : Step → PState
     | some d =>
       let e := syncDoc s.entry (buffer.getD d)
       { s with disk := some result, entry := some { content := result, version := satSucc e.version } }
+  | .aliasWrite new =>
+    match s.disk with
+    | none => s
+    | some _ => { s with disk := some new }
 
 def run (s : PState) : List Step → PState
   | [] => s
